@@ -3,9 +3,73 @@ C02 — BED and GFF features survive write-then-read with coordinate conventions
 Property theorems only.
 -/
 import Biogo.Spec.FeatIO
+import Biogo.Proofs.FeatBedRound
 
 namespace Biogo.Properties.C02
-open Biogo.BytesFeat Biogo.Gff
+open Biogo.BytesFeat Biogo.Gff Biogo.FeatIO
+
+/-! ## BED -/
+
+/-- `strconv.ParseInt(strconv.FormatInt(n, 10), 0, 64) = n` for every int64 (§3.2 of the design) -/
+theorem parseInt_formatInt (i : Int) (h : inInt64 i = true) : parseInt (formatInt i) 64 = .ok i :=
+  Biogo.BytesFeat.parseInt_formatInt i h
+
+/-- C02, second sentence: a BED record of any of the five Go types (`b.width` columns), written
+    by a Writer of a narrower (or equal) column count `m`, reads back through a Reader of that
+    column count as exactly its first `m` columns, followed by `io.EOF`; the writer reports the
+    number of bytes it emitted.  Only the `m` written columns need to be well formed. -/
+theorem bed_narrow (b : Bed.Rec) (m : Nat) (hm : Bed.validWidth m = true) (hmw : m ≤ b.width)
+    (hwf : bedWF m b = true) :
+    ∃ text n, Bed.write m b = .ok (text, n) ∧ n = text.length ∧
+      Bed.readAll m text = [.record (Bed.firstCols m b), .eof] := by
+  refine ⟨Bed.format m b ++ [10], (Bed.format m b).length + 1, ?_, by simp, ?_⟩
+  · simp [Bed.write, Nat.not_lt.mpr hmw]
+  · exact Bed.readAll_format b m m hm hm (Nat.le_refl _) hwf
+
+/-- C02, first sentence for BED: a BED3/4/5/6/12 record with well-formed fields written at its
+    own column count reads back equal to the original in every field.  (`firstCols b.width b = b`
+    says that `b` is a value of the Go type with `b.width` columns: the columns that type does
+    not have hold their defaults.) -/
+theorem bed_roundtrip (b : Bed.Rec) (hm : Bed.validWidth b.width = true)
+    (hnorm : Bed.firstCols b.width b = b) (hwf : bedWF b.width b = true) :
+    ∃ text n, Bed.write b.width b = .ok (text, n) ∧ n = text.length ∧
+      Bed.readAll b.width text = [.record b, .eof] := by
+  obtain ⟨text, n, h1, h2, h3⟩ := bed_narrow b b.width hm (Nat.le_refl _) hwf
+  exact ⟨text, n, h1, h2, by rw [h3, hnorm]⟩
+
+/-- the stronger form in the design: a line written at `n` columns read by a reader of any
+    column count `m ≤ n` gives the first `m` columns (`SplitN(line, m+1)` leaves the rest of the
+    line in an ignored last piece) -/
+theorem bed_narrow_read (b : Bed.Rec) (n m : Nat) (hn : Bed.validWidth n = true) (hm : Bed.validWidth m = true)
+    (hmn : m ≤ n) (hnw : n ≤ b.width) (hwf : bedWF n b = true) :
+    ∃ text c, Bed.write n b = .ok (text, c) ∧
+      Bed.readAll m text = [.record (Bed.firstCols m b), .eof] := by
+  refine ⟨Bed.format n b ++ [10], (Bed.format n b).length + 1, ?_, ?_⟩
+  · simp [Bed.write, Nat.not_lt.mpr hnw]
+  · exact Bed.readAll_format b n m hn hm hmn hwf
+
+/-- "reported byte counts equal bytes emitted", BED writer (every outcome) -/
+theorem bed_write_count (b : Bed.Rec) (m : Nat) (text : Bytes) (n : Nat)
+    (h : Bed.write m b = .ok (text, n)) : n = text.length := by
+  unfold Bed.write at h
+  split at h
+  · cases h
+  · cases h; simp
+
+/-- a writer wider than the record's type is refused (`ErrBadBedType`) -/
+theorem bed_write_wider_refused (b : Bed.Rec) (m : Nat) (h : b.width < m) : Bed.write m b = .error .badType := by
+  simp [Bed.write, h]
+
+/-! non-vacuity: a BED12 record with two blocks, negative and extreme coordinates, opaque colour -/
+def bedExample : Bed.Rec :=
+  { width := 12, chrom := ofString "chr1", start := -5, stop := 9223372036854775807, name := ofString "a b#;",
+    score := -9223372036854775808, strand := -1, thickStart := 0, thickEnd := 7, rgb := { r := 255, g := 0, b := 9, a := 255 },
+    blockCount := 2, blockSizes := [3, -4], blockStarts := [0, 6] }
+
+example : bedWF 12 bedExample = true ∧ Bed.firstCols 12 bedExample = bedExample ∧
+    Bed.validWidth bedExample.width = true := by decide +kernel
+
+/-! ## GFF coordinates -/
 
 /-- `feat.OneToZero (feat.ZeroToOne p) = p` for every position (no panic: the 1-based value is never 0) -/
 theorem oneToZero_zeroToOne (p : Int) : oneToZero (zeroToOne p) = some p := by
